@@ -97,7 +97,13 @@ def rules(model: Model, tier: str) -> List[RuleResult]:
     c01_layout.check_normal_equations(model, N)
     ncfg = c01_layout.check_shift_layout(model, E, tier)
     rules.extra_coverage = dict(shape_configurations=ncfg)
-    return [W, W2, P, Wp, T, S, B, Z, N, E]
+    from ..rules import autograd as _ac
+    _R11 = RuleResult(PROP, "AC11", "every exit of the public functional returns the Function's output; forward's solution comes only from the dispatched implementation; operands unchanged", min_instances=2)
+    for _cn in ['solve_torchfcn']:
+        _fc = _ac.get_fncls(model, _cn)
+        _ac.ac11_wrapper_returns(model, _fc, _R11)
+        _ac.ac11_forward_provenance(model, _fc, _R11)
+    return [W, W2, P, Wp, T, S, B, Z, N, E, _R11]
 
 
 # ------------------------------------------------------------------------------------------------
